@@ -81,16 +81,21 @@ def statesStep (acc : List Str) (r : Row) : List Str :=
 def states (t : List Row) : List Str := t.foldl statesStep []
 
 def events (t : List Row) : List Str := t.foldl (fun acc r => addUniq acc r.ev) []
-def actions (t : List Row) : List Str :=
-  t.foldl (fun acc r => match r.action with | some a => addUniq acc a | none => acc) []
-def guards (t : List Row) : List Str :=
-  t.foldl (fun acc r => match r.guard with | some g => addUniq acc g | none => acc) []
+def actionsStep (acc : List Str) (r : Row) : List Str :=
+  match r.action with | some a => addUniq acc a | none => acc
+def actions (t : List Row) : List Str := t.foldl actionsStep []
+
+def guardsStep (acc : List Str) (r : Row) : List Str :=
+  match r.guard with | some g => addUniq acc g | none => acc
+def guards (t : List Row) : List Str := t.foldl guardsStep []
+
+def sigsStep (acc : List (Str × Str)) (r : Row) : List (Str × Str) :=
+  match r.action with
+  | some a => if acc.contains (a, r.ev) then acc else acc ++ [(a, r.ev)]
+  | none => acc
 
 /-- `actionsignatures`: first appearance of each (action, event) pair (fix dc67ed2) -/
-def actionSigs (t : List Row) : List (Str × Str) :=
-  t.foldl (fun acc r => match r.action with
-    | some a => if acc.contains (a, r.ev) then acc else acc ++ [(a, r.ev)]
-    | none => acc) []
+def actionSigs (t : List Row) : List (Str × Str) := t.foldl sigsStep []
 
 /-- states that start at least one row, in first-appearance order -/
 def sourceStates (t : List Row) : List Str := t.foldl (fun acc r => addUniq acc r.src) []
